@@ -52,6 +52,10 @@ def _index(spec, n):
     if spec is None:
         return pd.RangeIndex(n)
     if spec["kind"] == "single":
+        rng = spec.get("range")
+        if rng and list(spec["values"]) == [rng[0] + i * rng[1] for i in range(len(spec["values"]))] and spec["values"]:
+            # a genuine pd.RangeIndex that does not start at 0 / has a step (labels != positions)
+            return pd.RangeIndex(rng[0], rng[0] + len(spec["values"]) * rng[1], rng[1], name=spec.get("name"))
         s = _series(spec["values"], spec["dtype"])
         return pd.Index(s, name=spec.get("name"))
     arrays = [_series(l["values"], l["dtype"]).array for l in spec["levels"]]
